@@ -36,8 +36,12 @@ Definition is_qname (q : qstyle) (n : str) : Prop :=
 Definition tok_follow (q : qstyle) (rest : str) : Prop :=
   match q with QBare => not_starting tok_cont rest | _ => True end.
 
-(* a gap inside a directive that must stay on its line *)
-Definition line_gap (l : str) : Prop := layout_text l /\ count_nl l = 0.
+(* a gap inside a directive that must stay on its line: blanks, /* */ comments without
+   newline, // comments (the code lets their newline pass) *)
+Definition line_gap (l : str) : Prop := layout_text l /\ line_layout l.
+(* the gap after a value read to the end of its line: it starts with that line's newline *)
+Definition nl_gap (l : str) : Prop :=
+  layout_text l /\ match l with c :: _ => is_nl c = true | [] => False end.
 (* the gap that ends a %left / %avoid_insert line *)
 Definition eol_gap (l : str) : Prop := layout_text l /\ 1 <= count_nl l.
 
@@ -56,6 +60,23 @@ Definition no_ws_hd (s : str) : Prop := match s with [] => True | c :: _ => is_w
 Definition trimmed (s : str) : Prop := no_ws_hd s /\ no_ws_hd (rev s).
 Definition wf_action (a : str) : Prop := brace_ok 0 a = true /\ trimmed a.
 Definition wf_pad (p : str) : Prop := forallb is_whitespace p = true.
+
+(* ---- texts read up to a single colon / up to the end of the line ------------- *)
+(* every ':' of the text belongs to a "::" pair (read left to right) *)
+Fixpoint colon_scan (s : str) : bool :=
+  match s with
+  | [] => true
+  | c :: s' =>
+      if (c =? c_colon)%N
+      then match s' with c2 :: s'' => (c2 =? c_colon)%N && colon_scan s'' | [] => false end
+      else colon_scan s'
+  end.
+Definition is_colon (c : N) : bool := (c =? c_colon)%N.
+(* an action type (Grmtools dialect) / a %parse-param name: what parse_to_single_colon returns *)
+Definition wf_rtype (t : str) : Prop := trimmed t /\ colon_scan t = true.
+(* a value read by parse_to_eol after a newline-free gap: not empty, no newline, not starting like layout *)
+Definition wf_eol_text (t : str) : Prop :=
+  t <> [] /\ item_start t /\ forallb (fun c => negb (is_nl c)) t = true.
 
 (* ---- productions ----------------------------------------------------------- *)
 (* [D n]: n is declared by a %token directive *)
@@ -97,7 +118,15 @@ Fixpoint wf_prods (D : str -> bool) (rl : rlay) (pi : nat) (ps : list aprod) : P
 
 Definition wf_rule (D : str -> bool) (rl : rlay) (r : arule) : Prop :=
   is_name (ar_name r) = true /\ layout_text (rg_name rl) /\ layout_text (rg_colon rl) /\
-  ar_prods r <> [] /\ wf_prods D rl 0 (ar_prods r).
+  ar_prods r <> [] /\ wf_prods D rl 0 (ar_prods r) /\
+  match ar_type r with
+  | Some t => layout_text (rg_arrow rl) /\ wf_rtype t /\ wf_pad (r_tpad rl) /\
+              item_start (t ++ r_tpad rl ++ [c_colon])
+  | None => True
+  end.
+
+(* which blocks carry an action type: all of them in the Grmtools dialect, none otherwise *)
+Definition rule_kind_ok (k : ykind) (r : arule) : Prop := ar_type r <> None <-> k = KGrmtools.
 
 Fixpoint wf_rules (D : str -> bool) (l : layout) (r : nat) (rs : list arule) : Prop :=
   match rs with
@@ -123,6 +152,23 @@ Definition any_gap (l : str) : Prop := True.
 Definition nl0 (l : str) : Prop := count_nl l = 0.
 Definition nl1 (l : str) : Prop := 1 <= count_nl l.
 
+(* an %expect-unused list: rule names bare, tokens between quotes *)
+Fixpoint wf_eus (g : nat -> str) (q : nat -> qstyle) (k : nat) (ss : list asym) : Prop :=
+  match ss with
+  | [] => True
+  | s :: ss' =>
+      match s with
+      | ARule n => is_name n = true
+      | ATok n => q k <> QBare /\ is_qname (q k) n
+      end /\
+      layout_text (g (S k)) /\
+      match s, ss' with
+      | ARule _, ARule _ :: _ => g (S k) <> []
+      | _, _ => True
+      end /\
+      wf_eus g q (S k) ss'
+  end.
+
 Definition wf_numeral (ds : str) (v : N) : Prop :=
   ds <> [] /\ forallb is_digit ds = true /\ dec_value 0 ds = v /\ (v <= usize_max)%N.
 
@@ -138,6 +184,21 @@ Definition wf_decl (dl : dlay) (x : adecl) : Prop :=
   | DAvoid ts => ts <> [] /\ wf_toks nl0 nl1 (dg dl) (dq dl) 0 ts
   | DExpect v => wf_numeral (d_txt dl) v /\ layout_text (dg dl 1)
   | DExpectRR v => wf_numeral (d_txt dl) v /\ layout_text (dg dl 1)
+  | DActiontype t => wf_eol_text t /\ nl_gap (dg dl 1)
+  | DParseParam n t =>
+      wf_rtype n /\ wf_pad (d_txt dl) /\ item_start (n ++ d_txt dl ++ [c_colon]) /\
+      line_gap (dg dl 1) /\ not_starting is_colon (dg dl 1 ++ t) /\ wf_eol_text t /\ nl_gap (dg dl 2)
+  | DParseGenerics t => wf_eol_text t /\ nl_gap (dg dl 1)
+  | DExpectUnused ss => ss <> [] /\ wf_eus (dg dl) (dq dl) 0 ss
+  | DImplicit ts => ts <> [] /\ wf_toks nl0 nl1 (dg dl) (dq dl) 0 ts
+  end.
+
+(* which declarations a dialect has *)
+Definition decl_kind_ok (k : ykind) (x : adecl) : Prop :=
+  match x with
+  | DActiontype _ => k = KOriginal
+  | DImplicit _ => k = KEco
+  | _ => True
   end.
 
 Fixpoint wf_decls (l : layout) (d : nat) (ds : list adecl) : Prop :=
@@ -149,9 +210,13 @@ Fixpoint wf_decls (l : layout) (d : nat) (ds : list adecl) : Prop :=
 (* ---- the whole file --------------------------------------------------------- *)
 Definition declared_b (ag : agram) (n : str) : bool := mem_str (ag_tokens ag) n.
 
+Definition wf_programs (l : layout) (ag : agram) : Prop :=
+  match ag_programs ag with Some p => layout_text (l_gap l [5]) /\ starts_solid p | None => True end.
+
 Definition wf_layout (l : layout) (ag : agram) : Prop :=
   layout_text (l_gap l [0]) /\ wf_decls l 0 (ag_decls ag) /\
-  layout_text (l_gap l [2]) /\ wf_rules (declared_b ag) l 0 (ag_rules ag).
+  layout_text (l_gap l [2]) /\ wf_rules (declared_b ag) l 0 (ag_rules ag) /\
+  wf_programs l ag.
 
 (* what the AST-level state knows as %token-declared *)
 Definition is_declared (a : gast) (n : str) : bool :=
@@ -180,7 +245,11 @@ Definition prec_uses (ag : agram) : list str :=
   flat_map (fun r => flat_map (fun p => match ap_prec p with Some t => [t] | None => [] end) (ar_prods r))
            (ag_rules ag).
 
-Definition wf_agram (ag : agram) : Prop :=
+(* names known as tokens at the end of the parse *)
+Definition known_toks (ag : agram) : list str :=
+  ag_tokens ag ++ ag_avoid ag ++ ag_implicit ag ++ rule_tok_names ag.
+
+Definition wf_agram (k : ykind) (ag : agram) : Prop :=
   (* at most one %start, %expect, %expect-rr *)
   count_decl (fun d => match d with DStart _ => true | _ => false end) ag <= 1 /\
   count_decl (fun d => match d with DExpect _ => true | _ => false end) ag <= 1 /\
@@ -194,15 +263,26 @@ Definition wf_agram (ag : agram) : Prop :=
   (forall n, ag_start ag = Some n -> In n (map ar_name (ag_rules ag))) /\
   (forall n, In n (rule_refs ag) -> In n (map ar_name (ag_rules ag))) /\
   (forall t, In t (prec_uses ag) -> In t (flat_map snd (ag_precs ag))) /\
-  (forall t, In t (map fst (ag_epp ag)) -> In t (ag_tokens ag ++ ag_avoid ag ++ rule_tok_names ag)).
+  (forall t, In t (map fst (ag_epp ag)) -> In t (known_toks ag)) /\
+  (* the dialect: its declarations, action types on all rule blocks or on none; blocks of one
+     rule agree on the type *)
+  Forall (decl_kind_ok k) (ag_decls ag) /\
+  Forall (rule_kind_ok k) (ag_rules ag) /\
+  (forall r1 r2, In r1 (ag_rules ag) -> In r2 (ag_rules ag) -> ar_name r1 = ar_name r2 -> ar_type r1 = ar_type r2) /\
+  (* at most one %actiontype, %parse-param, %parse-generics; a token is implicit once *)
+  count_decl (fun d => match d with DActiontype _ => true | _ => false end) ag <= 1 /\
+  count_decl (fun d => match d with DParseParam _ _ => true | _ => false end) ag <= 1 /\
+  count_decl (fun d => match d with DParseGenerics _ => true | _ => false end) ag <= 1 /\
+  NoDup (ag_implicit ag) /\
+  (* %expect-unused names rules and tokens of the grammar *)
+  (forall n, In (ARule n) (ag_expect_unused ag) -> In n (map ar_name (ag_rules ag))) /\
+  (forall n, In (ATok n) (ag_expect_unused ag) -> In n (known_toks ag)).
 
 (* ======================================================================== *)
 (*  Statements                                                               *)
 (* ======================================================================== *)
 (* the parser functions of the repaired scanner, original dialect, on [src] *)
 Definition P_ws (src : str) := ws true src (byte_len src) (fuel_for src).
-Definition actiont_of (g : option (str * span)) : option str :=
-  match g with Some (s, _) => Some s | None => None end.
 
 (* an action between its braces, wherever it stands *)
 Definition parse_action_roundtrip_stmt : Prop :=
@@ -223,29 +303,31 @@ Definition action_span_roundtrip_stmt : Prop :=
    any context: parse_rule followed by the parse_ws of parse_rules' loop adds exactly
    the rule's effect to the AST and leaves the cursor after it *)
 Definition rule_roundtrip_stmt : Prop :=
-  forall fa D src pre rl r rest i n a g e,
+  forall k fa D src pre rl r rest i n a g e,
     src = pre ++ print_rule rl r ++ rest -> i = byte_len pre ->
-    wf_rule D rl r -> item_start rest ->
+    wf_rule D rl r -> rule_kind_ok k r -> item_start rest ->
     tok_inv D a ->
     exists n',
-      sbind (parse_rule true fa KOriginal src (byte_len src) (fuel_for src) (mkSt n a g e) i)
+      sbind (parse_rule true fa k src (byte_len src) (fuel_for src) (mkSt n a g e) i)
             (fun st j => P_ws src st j true)
       = Done (mkSt n' (rule_eff fa rl i (actiont_of g) r a) g e, Ok (i + byte_len (print_rule rl r))).
 
-(* the rules section  %% rules  up to the end of the text *)
+(* the rules section  %% rules  up to the end of the text or the "%%" of the programs section *)
+Definition rules_end (rest : str) : Prop := rest = [] \/ exists r, rest = kw_pp ++ r.
 Definition rules_roundtrip_stmt : Prop :=
-  forall fa D l src pre gap rs i n a g e,
-    src = pre ++ kw_pp ++ gap ++ print_rules l 0 rs -> i = byte_len pre ->
-    layout_text gap -> wf_rules D l 0 rs ->
+  forall k fa D l src pre gap rs rest i n a g e,
+    src = pre ++ kw_pp ++ gap ++ print_rules l 0 rs ++ rest -> i = byte_len pre ->
+    layout_text gap -> wf_rules D l 0 rs -> Forall (rule_kind_ok k) rs -> rules_end rest ->
     tok_inv D a ->
     exists n',
-      parse_rules true fa KOriginal src (byte_len src) (fuel_for src) (mkSt n a g e) i
-      = Done (mkSt n' (rules_eff fa l 0 (i + 2 + byte_len gap) (actiont_of g) rs a) g e, Ok (byte_len src)).
+      parse_rules true fa k src (byte_len src) (fuel_for src) (mkSt n a g e) i
+      = Done (mkSt n' (rules_eff fa l 0 (i + 2 + byte_len gap) (actiont_of g) rs a) g e,
+              Ok (i + 2 + byte_len gap + byte_len (print_rules l 0 rs))).
 
 (* ---- declarations ----------------------------------------------------------- *)
 (* what the AST must not yet contain for a declaration to be accepted without a
    Duplicate... error *)
-Definition decl_pre (x : adecl) (a : gast) : Prop :=
+Definition decl_pre (x : adecl) (a : gast) (g : option (str * span)) : Prop :=
   match x with
   | DStart _ => a_start a = None
   | DToken _ => True
@@ -256,67 +338,84 @@ Definition decl_pre (x : adecl) (a : gast) : Prop :=
       forall t, In t ts -> match a_avoid_insert a with Some m => assoc_get m t = None | None => True end
   | DExpect _ => a_expect a = None
   | DExpectRR _ => a_expectrr a = None
+  | DActiontype _ => g = None
+  | DParseParam _ _ | DParseGenerics _ | DExpectUnused _ => True
+  | DImplicit ts =>
+      NoDup ts /\
+      forall t, In t ts -> match a_implicit_tokens a with Some m => assoc_get m t = None | None => True end
   end.
 
 (* one declaration (keyword included) followed by another '%': one iteration of
    parse_declarations' loop adds exactly its effect and leaves the cursor after it *)
-Definition decl_step_for (x : adecl) : Prop :=
+Definition decl_step_for (k : ykind) (x : adecl) : Prop :=
   forall src pre dl rest i f n a g e lvl,
     src = pre ++ print_decl dl x ++ 37%N :: rest -> i = byte_len pre ->
-    wf_decl dl x -> decl_pre x a ->
+    wf_decl dl x -> decl_kind_ok k x -> decl_pre x a g ->
     exists n',
-      decl_loop true KOriginal src (byte_len src) (fuel_for src) (S f) (mkSt n a g e) i lvl
-      = decl_loop true KOriginal src (byte_len src) (fuel_for src) f
-          (mkSt n' (decl_eff dl i lvl x a) g e) (i + byte_len (print_decl dl x))
+      decl_loop true k src (byte_len src) (fuel_for src) (S f) (mkSt n a g e) i lvl
+      = decl_loop true k src (byte_len src) (fuel_for src) f
+          (mkSt n' (decl_eff dl i lvl x a) (decl_gat dl i x g) e) (i + byte_len (print_decl dl x))
           (if is_prec x then S lvl else lvl).
-Definition decl_step_stmt : Prop := forall x, decl_step_for x.
+Definition decl_step_stmt : Prop := forall k x, decl_step_for k x.
 
 (* the chained precondition of a declaration list printed at [off] *)
-Fixpoint decls_pre (l : layout) (d off lvl : nat) (ds : list adecl) (a : gast) : Prop :=
+Fixpoint decls_pre (l : layout) (d off lvl : nat) (ds : list adecl) (a : gast) (g : option (str * span)) : Prop :=
   match ds with
   | [] => True
   | x :: ds' =>
-      decl_pre x a /\
+      decl_pre x a g /\
       decls_pre l (S d) (off + byte_len (print_decl (dlay_of l d) x)) (if is_prec x then S lvl else lvl) ds'
-                (decl_eff (dlay_of l d) off lvl x a)
+                (decl_eff (dlay_of l d) off lvl x a) (decl_gat (dlay_of l d) off x g)
   end.
 
 (* the declarations section: leading layout, declarations, up to "%%" *)
 Definition declarations_roundtrip_stmt : Prop :=
-  forall l ds src rest n a g e,
+  forall k l ds src rest n a g e,
     src = l_gap l [0] ++ print_decls l 0 ds ++ kw_pp ++ rest ->
-    layout_text (l_gap l [0]) -> wf_decls l 0 ds ->
-    decls_pre l 0 (byte_len (l_gap l [0])) 0 ds a ->
+    layout_text (l_gap l [0]) -> wf_decls l 0 ds -> Forall (decl_kind_ok k) ds ->
+    decls_pre l 0 (byte_len (l_gap l [0])) 0 ds a g ->
     exists n',
-      parse_declarations true KOriginal src (byte_len src) (fuel_for src) (mkSt n a g e) 0
-      = Done (mkSt n' (decls_eff l 0 (byte_len (l_gap l [0])) 0 ds a) g e,
+      parse_declarations true k src (byte_len src) (fuel_for src) (mkSt n a g e) 0
+      = Done (mkSt n' (decls_eff l 0 (byte_len (l_gap l [0])) 0 ds a)
+                   (decls_gat l 0 (byte_len (l_gap l [0])) ds g) e,
               Ok (byte_len (l_gap l [0]) + byte_len (print_decls l 0 ds))).
 
 (* the syntactic conditions of [wf_agram] give the chained preconditions *)
 Definition decls_pre_wf_stmt : Prop :=
-  forall l ag, wf_agram ag -> decls_pre l 0 (decls_off l) 0 (ag_decls ag) ast_new.
+  forall k l ag, wf_agram k ag -> decls_pre l 0 (decls_off l) 0 (ag_decls ag) ast_new None.
 (* after the declarations the state knows exactly the %token names as declared *)
 Definition decls_tok_inv_stmt : Prop :=
   forall l ag, tok_inv (declared_b ag) (decls_eff l 0 (decls_off l) 0 (ag_decls ag) ast_new).
 
 (* validation of the denoted AST finds nothing *)
 Definition validation_clean_stmt : Prop :=
-  forall fa l ag, wf_agram ag -> wf_layout l ag ->
+  forall k fa l ag, wf_agram k ag -> wf_layout l ag ->
     complete_and_validate (ast_of fa l ag) = Done None.
 
 (* ---- the whole file ----------------------------------------------------------- *)
 (* parsing the printed grammar yields its AST, whatever the layout; the errors are
    exactly those of validating that AST *)
 Definition yacc_parse_roundtrip_stmt : Prop :=
-  forall fa l ag, wf_agram ag -> wf_layout l ag ->
+  forall k fa l ag, wf_agram k ag -> wf_layout l ag ->
     exists v,
       complete_and_validate (ast_of fa l ag) = Done v /\
-      run_case true fa KOriginal (print l ag)
+      run_case true fa k (print l ag)
       = Done (TResult (ast_of fa l ag) (match v with Some e => [e] | None => [] end) (warnings_of fa l ag)).
 
 Definition yacc_roundtrip_stmt : Prop :=
-  forall fa l ag, wf_agram ag -> wf_layout l ag ->
+  forall k fa l ag, wf_agram k ag -> wf_layout l ag ->
+    run_case true fa k (print l ag) = Done (TResult (ast_of fa l ag) [] (warnings_of fa l ag)).
+
+(* the three dialects, by name *)
+Definition yacc_roundtrip_original_stmt : Prop :=
+  forall fa l ag, wf_agram KOriginal ag -> wf_layout l ag ->
     run_case true fa KOriginal (print l ag) = Done (TResult (ast_of fa l ag) [] (warnings_of fa l ag)).
+Definition yacc_roundtrip_grmtools_stmt : Prop :=
+  forall fa l ag, wf_agram KGrmtools ag -> wf_layout l ag ->
+    run_case true fa KGrmtools (print l ag) = Done (TResult (ast_of fa l ag) [] (warnings_of fa l ag)).
+Definition yacc_roundtrip_eco_stmt : Prop :=
+  forall fa l ag, wf_agram KEco ag -> wf_layout l ag ->
+    run_case true fa KEco (print l ag) = Done (TResult (ast_of fa l ag) [] (warnings_of fa l ag)).
 
 (* ---- what the denoted AST contains: the abstract grammar, nothing else ----------- *)
 Definition erase_sym (s : symbol) : asym :=
@@ -338,9 +437,17 @@ Fixpoint prec_levels (lvl : nat) (ps : list (assoc * list str)) : list (str * na
   end.
 Definition has_avoid (ag : agram) : bool :=
   existsb (fun d => match d with DAvoid _ => true | _ => false end) (ag_decls ag).
+Definition has_implicit (ag : agram) : bool :=
+  existsb (fun d => match d with DImplicit _ => true | _ => false end) (ag_decls ag).
+(* the action type of rule n: the one its (first) block carries, else the %actiontype *)
+Definition rule_type (ag : agram) (n : str) : option str :=
+  match find (fun r => str_eqb (ar_name r) n) (ag_rules ag) with
+  | Some r => match ar_type r with Some t => Some t | None => ag_actiontype ag end
+  | None => None
+  end.
 
 Definition ast_of_faithful_stmt : Prop :=
-  forall fa l ag, wf_agram ag ->
+  forall k fa l ag, wf_agram k ag ->
     let A := ast_of fa l ag in
     (* productions: symbols (kind and name), %prec token, action text, in source order *)
     map (fun p => (map erase_sym (p_syms p), p_prec p, option_map fst (p_action p))) (a_prods A)
@@ -350,7 +457,8 @@ Definition ast_of_faithful_stmt : Prop :=
     (forall r, In r (a_rules A) ->
        r_pidxs r = filter (fun i => str_eqb (nth i (prod_owners ag) []) (r_name r))
                           (seq 0 (List.length (prod_owners ag))) /\
-       r_actiont r = None) /\
+       (* action type: the block's own (Grmtools dialect) or the %actiontype *)
+       r_actiont r = rule_type ag (r_name r)) /\
     (* start rule: %start, else the first rule *)
     option_map fst (a_start A)
       = match ag_start ag with Some n => Some n | None => option_map ar_name (hd_error (ag_rules ag)) end /\
@@ -363,8 +471,11 @@ Definition ast_of_faithful_stmt : Prop :=
     (* %token-declared names; nothing else *)
     (forall n, is_declared A n = mem_str (ag_tokens ag) n) /\
     List.length (a_spans A) = List.length (a_tokens A) /\
-    a_implicit_tokens A = None /\ a_parse_param A = None /\ a_parse_generics A = None /\
-    a_programs A = None /\ a_expect_unused A = [].
+    (* %implicit_tokens (Eco), %parse-param, %parse-generics, programs, %expect-unused *)
+    option_map (map fst) (a_implicit_tokens A) = (if has_implicit ag then Some (ag_implicit ag) else None) /\
+    a_parse_param A = ag_parse_param ag /\ a_parse_generics A = ag_parse_generics ag /\
+    a_programs A = ag_programs ag /\ map erase_sym (a_expect_unused A) = ag_expect_unused ag.
 
 (* the hypotheses of the round-trip theorems are satisfiable (witness: YpRoundExample.v) *)
-Definition roundtrip_hyps_satisfiable_stmt : Prop := exists l ag, wf_agram ag /\ wf_layout l ag.
+Definition roundtrip_hyps_satisfiable_stmt : Prop :=
+  forall k, exists l ag, wf_agram k ag /\ wf_layout l ag.
